@@ -293,6 +293,9 @@ def idx (nodes : List α) (u : α) : Nat := nodes.idxOf u
 /-- `np.full((nlen, nlen), 0)` -/
 def zeros (n : Nat) : List (List Nat) := List.replicate n (List.replicate n 0)
 
+/-- `A[i][j]` (0 outside the matrix) -/
+def entry (A : List (List Nat)) (i j : Nat) : Nat := ((A[i]?).bind (fun row => row[j]?)).getD 0
+
 /-- `A[i, j] = v` -/
 def setEntry (A : List (List Nat)) (i j v : Nat) : List (List Nat) := A.modify i (fun row => row.set j v)
 
